@@ -84,6 +84,7 @@ pub fn spell_token(t: &str, rng: &mut Rng) -> String {
         }
         "X" => rng.pick(&["X", "Q", "b", "l", "p", "z9"]).to_string(),
         "B3" => "B3".to_string(),
+        "B0" => rng.pick(&["B0", "B00", "B-0", "B+0", "B-1", "B-2147483648"]).to_string(),
         "O" => rng.pick(&["10:10", "10.9:10.2", "10:10:7"]).to_string(),
         "A" => rng.pick(&["50:30", " 50 : 30 "]).to_string(),
         "A2" => rng.pick(&["50.9:30.2", "50.999:30.5"]).to_string(),
@@ -453,7 +454,7 @@ fn random_line(rng: &mut Rng) -> Value {
     let is_slider = ty & 1 == 0 && ty & 2 != 0;
     // sliders sit at (10,10) so that the four named path points can be recognised
     let (x, y, xc, yc) = if is_slider { (10, 10, "int", "int") } else { (*rng.pick(&[0, 256, 511, -5, 131072, 77]), *rng.pick(&[0, 192, 383, -131072, 12]), coordc(rng), coordc(rng)) };
-    let toks = ["B", "L", "P", "C", "O", "A", "Bc", "Cn", "A2", "X", "B3", "bad", "empty"];
+    let toks = ["B", "L", "P", "C", "O", "A", "Bc", "Cn", "A2", "X", "B3", "B0", "bad", "empty"];
     let npath = 1 + rng.below(6);
     let mut path: Vec<&str> = vec![*rng.pick(&["B", "L", "P", "C", "B", "L", "X", "B3", "A"])];
     for _ in 1..npath {
